@@ -66,7 +66,7 @@ def scenario(name, seed):
             f.pkts.insert(1, f.pkts[0].copy())
         else:
             c = f.conn
-            vn = bytes([0x8A]) + bytes(4) + bytes([len(c.ccid)]) + c.ccid + bytes([len(c.odcid)]) + c.odcid + \
+            vn = bytes([0xCA]) + bytes(4) + bytes([len(c.ccid)]) + c.ccid + bytes([len(c.odcid)]) + c.odcid + \
                 bytes.fromhex("00000001") + bytes.fromhex("6b3343cf") + bytes.fromhex("1a2a3a4a")
             f.pkts.insert(1, cap.Pkt(0, "s", "udp", vn))
         flows.append(f)
